@@ -1,6 +1,7 @@
 import McpModel.Base.Proto
 import McpModel.Notify.System
 import McpModel.Notify.Roots
+import McpModel.Notify.Pages
 /-!
 Driver for E14 (C18): the STRING LAYER only.  It parses the harness's op tokens and the implementation's
 observation into the typed records of `Monitor.lean` (`Mon.Op`, `Mon.Obs`), replays the op on the typed
@@ -22,6 +23,7 @@ registers after acknowledging shows up in the window.
 
 Op grammar (one label per record; observation after `=>`):
   config <capT> <capP> <capR> <hook0|hook1>      => ok          caps: unset|on|off
+  config <capT> <capP> <on|off> <hook0|hook1> nohandlers => ok    (ServerOptions without Subscribe/UnsubscribeHandler, explicit capabilities with resources.subscribe: every resources/subscribe, resources/unsubscribe and every URI of a subscriptions/listen fails; = the application refuses u0…u7 from the start)
   ttl <ms>                                         => ok
   change <tools|prompts|resources|templates> <add|replace|remove|noop>  => ok
   change <set> rm <p|a|d>+                         => ok          (ONE Remove*(names…) call: p a registered feature, a a never-registered name, d a name named before in the call)
@@ -495,21 +497,96 @@ def rootsStep (d : RDState) (toks : List String) (impl : String) : RDState × St
       let (m', viol) := Roots.monStep d.m l got
       ({ d with s := r.1, m := m' }, model, viol.map rootsClauseText)
 
+/-! ### client caches with several pages: `pages …` records (model and monitor: `Pages.lean`) -/
+
+def parsePagesOp : List String → Option Pages.Op
+  | ["list", k] => k.toNat?.map Pages.Op.list
+  | ["listheld", k] => k.toNat?.map Pages.Op.listheld
+  | ["fill", k] => k.toNat?.map Pages.Op.fill
+  | ["change"] => some .change
+  | ["tick", d] => d.toNat?.map Pages.Op.tick
+  | ["ttl", n] => n.toNat?.map Pages.Op.ttl
+  | _ => none
+
+def pagesObsStr : Pages.Obs → String
+  | .ok => "ok"
+  | .ret v hit => s!"ret v{v} " ++ (if hit then "hit" else "miss")
+  | .held v => s!"held v{v}"
+  | .handled n => s!"handled {n}"
+  | .refused => "refused"
+
+def parsePagesObs (impl : String) : Option Pages.Obs :=
+  let num (s : String) : Option Nat := if s.startsWith "v" then (s.drop 1).toNat? else none
+  match words impl with
+  | ["ok"] => some .ok
+  | ["refused"] => some .refused
+  | ["ret", v, h] => (num v).map (Pages.Obs.ret · (h == "hit"))
+  | ["held", v] => (num v).map Pages.Obs.held
+  | ["handled", n] => n.toNat?.map Pages.Obs.handled
+  | _ => none
+
+def pagesClauseText : Pages.Clause → String
+  | .stalePage => "C18: list_after_notification_fresh (paginated list): a list call for one cursor, started after the client handled notifications/tools/list_changed, returned that page with the content from before the change — the cache entry of EVERY cursor must go when the notification is handled (no_page_from_before_notification)"
+  | .notNotified => "C18: at_least_one_after_burst (paginated list): every tool was replaced and the subscribed 2026-07-28 client handled no list_changed notification within twice the debounce delay"
+
+structure PDState where
+  on : Bool := false
+  m : Pages.MState := {}
+  mon : Pages.Mon := {}
+
+def pagesStep (d : PDState) (toks : List String) (impl : String) : PDState × String × Option String :=
+  match toks with
+  | ["config", n] =>
+    match n.toNat?, d.on with
+    | some ttl, false => ({ on := true, m := { ttl := ttl } }, "ok", none)
+    | _, _ => (d, "bad-op", none)
+  | _ =>
+    if !d.on then (d, "bad-op", none) else
+    match parsePagesOp toks with
+    | none => (d, "bad-op", none)
+    | some op =>
+      let (m', model) := Pages.step d.m op
+      -- an unreadable observation of a call is judged as the oldest possible answer
+      let obs := (parsePagesObs impl).getD (match op with | .change => .handled 0 | _ => .ret 0 false)
+      let (mon', viol) := Pages.monStep d.mon op obs
+      ({ d with m := m', mon := mon' }, pagesObsStr model, viol.map pagesClauseText)
+
 structure DState where
   sys : Sys.State := {}
   mon : MState := {}
   roots : RDState := {}
+  pages : PDState := {}
+  /-- the server of this case has no Subscribe/UnsubscribeHandler: `policy … accept` changes nothing -/
+  nosub : Bool := false
 
 def engine : Engine DState where
   init := {}
   step d toks impl :=
     match toks with
     | ["reset"] => ({}, { model := "ok" })
+    | ["config", a, b, c, h, "nohandlers"] =>
+      -- A server with neither SubscribeHandler nor UnsubscribeHandler (explicit capabilities that still say
+      -- resources.subscribe): `Server.subscribe` returns "does not support resource subscriptions" before it
+      -- touches the table, `Server.unsubscribe` returns method-not-found: for the typed model this is an
+      -- application that refuses EVERY URI from the start — the `config` label followed by `policy u refuse`
+      -- for the URIs of the harness (u0 … u7), fed through model and monitor like any other ops.
+      if c == "unset" then ({ d with nosub := false }, { model := "bad-op" }) else
+      let run := (Op.config ((parseCap a).getD .unset) ((parseCap b).getD .unset) ((parseCap c).getD .unset) (h == "hook1")) ::
+        (List.range 8).map (fun u => Op.policy u true)
+      let (sys', mon') := run.foldl (fun (p : Sys.State × MState) op =>
+        ((Sys.sysStep p.1 op none).1, (monStep p.2 ⟨op, .ok⟩).1)) (d.sys, d.mon)
+      ({ d with sys := sys', mon := mon', nosub := true }, { model := "ok" })
+    | "pages" :: rest =>
+      let (p', model, viol) := pagesStep d.pages rest impl
+      ({ d with pages := p' }, { model := model, violated := viol })
     | "roots" :: rest =>
       let (r', model, viol) := rootsStep d.roots rest impl
       ({ d with roots := r' }, { model := model, violated := viol })
     | _ =>
       let park := isPark toks
+      let toks := match d.nosub, toks with
+        | true, ["policy", u, _] => ["policy", u, "refuse"]
+        | _, _ => toks
       let op := if park && !parkable d.sys toks then Op.bad else parseOp (normToks toks)
       let impl' := if park && impl == "ok unsub-held" then "ok cancel-held"
                    else if impl == "ok cancel-held" && park then "?" else impl
